@@ -309,16 +309,18 @@ func latchOf(l *Loop) *ssa.BasicBlock {
 // emptied-pool path (which re-creates the pool from the new list) or is an error return before any effect.
 func reachedOnEveryNonEmptyPath(fn *ssa.Function, rng *ssa.Range, pl *pool) bool {
 	// paths that avoid the loop: reaching conditions computed with the loop's entry block removed
-	cs := newCondSpaceAvoid(fn, recOf(lenZeroAtom("poolEmpty", lenOfField("gcpBalancer.scRefs"))), map[*ssa.BasicBlock]bool{rng.Block(): true}, "poolEmpty")
-	for _, r := range returnsOf(fn) {
-		if dominatesInstr(rng, r) {
+	cs := newCondSpaceAvoid(fn, recOf(lenZeroAtom("poolEmpty", lenOfField("gcpBalancer.scRefs")), eqAtom("cfgNil", loadOf("gcpBalancer.cfg"), isNil)), map[*ssa.BasicBlock]bool{rng.Block(): true}, "poolEmpty", "cfgNil")
+	// (every way out that avoids the loop, merged exits split per way in)
+	for _, vr := range cs.VirtualReturns() {
+		if dominatesInstr(rng, vr.Ret) {
 			continue
 		}
-		// allowed: the emptied-pool path, or returns carrying a non-nil error (rejected update)
-		if imp, _ := cs.Implies(cs.Reach(r), cs.Atom("poolEmpty")); imp {
+		// allowed: the emptied-pool path, or the rejection of the FIRST update (no configuration yet ⇒ no pool yet): a later
+		// update that stored the new list must not leave before pushing it, error or not
+		if imp, _ := cs.Implies(vr.Cond, cs.Atom("poolEmpty")); imp {
 			continue
 		}
-		if ok, _ := allOrigins(r.Results[0], isConstNilOrigin); !ok {
+		if imp, _ := cs.Implies(vr.Cond, cs.Atom("cfgNil")); imp && cs.Seen("cfgNil") && !isNilConst(stripConv(vr.Vals[0])) {
 			continue
 		}
 		return false
